@@ -34,11 +34,14 @@ def ref_optimize(n):
 
 
 def run_shard(args):
-    paths, d, cfg, trees = args
-    texts = [(t, '%s cost=%d' % (cfg, c)) for t, c, _ in R.corpus_texts(paths, d, 'file')]
+    paths, d, cfg, trees = args[:4]
+    mode = args[4] if len(args) > 4 else 'exec'
+    # Mod::Expression / Mod::Interactive roots: the expression corpus in expression mode, the statement corpus in interactive mode
+    texts = [(t, '%s %s cost=%d' % (cfg, mode, c)) for t, c, _ in R.corpus_texts(paths, d, 'exprfile' if mode == 'eval' else 'file')]
+    marg = '' if mode == 'exec' else '\t' + mode
     r = C.Result()
     for chunk in (texts[i:i + 2000] for i in range(0, len(texts), 2000)):
-        res = C.run_worker(['c12\t%s%s' % (C.hx(t), '\ttrees' if trees else '') for t, _ in chunk], cfg=cfg)
+        res = C.run_worker(['c12\t%s%s%s' % (C.hx(t), '\ttrees' if trees else '', marg) for t, _ in chunk], cfg=cfg)
         for (text, tag), obs in zip(chunk, res):
             r.evaluations += 1
             r.by_bound[tag] += 1
@@ -83,6 +86,10 @@ def run(tier, seed):
         for g in K.group_shards(K.shards_for(d, 'file'), 400 if tier == 'thorough' else 64):
             # the optimiser reference needs both trees as JSON: default build only (the all-nodes build is the same code)
             jobs.append((g, d, cfg, cfg == 'default'))
+        for g in K.group_shards(K.shards_for(d - 1, 'file'), 32):
+            jobs.append((g, d - 1, cfg, cfg == 'default', 'single'))
+        for g in K.group_shards(K.shards_for(d, 'exprfile'), 32):
+            jobs.append((g, d, cfg, cfg == 'default', 'eval'))
     total = C.Result()
     allh = set()
     for r in C.pmap(run_shard, jobs):
@@ -90,7 +97,7 @@ def run(tier, seed):
         total.merge(r)
     total.states = len(allh)
     total.nontrivial = total.validated
-    rule = ('every G_ref sentence with at most %d non-default alternatives that the parser accepts, in the default and all-nodes-with-ranges builds: identity fold == input; tagging fold: '
+    rule = ('every G_ref sentence with at most %d non-default alternatives that the parser accepts (module mode; interactive mode one level lower; the expression sub-grammar in expression mode), in the default and all-nodes-with-ranges builds: identity fold == input; tagging fold: '
             'will_map_user/map_user called once per range field of the Debug rendering, tags neither dropped nor duplicated, shape preserved; counting Visitor: multiset of visited '
             '(struct name, range) heads == multiset read off the Debug rendering; ConstantOptimizer == reference transformation on the generic tree, and idempotent; '
             'states = distinct texts, transitions = relations, non-trivial = accepted texts on which everything was checked' % d)
